@@ -618,7 +618,39 @@ def r8_compound_statements_descend(ctx, rule='C07.R8'):
             for fs_ in COMPOUND_FIELDS.values():
                 required |= set(fs_)
             if generic and not (consts_ & required):
-                rep.ob(rule, ctx.loc(fg, fg.node), 'generic_visit override walks all fields', True, 'iterates the fields of the node generically', anchor=fg.qualname)
+                # a generic walk may still filter the children it visits: the filter has to let through every node kind that
+                # can stand between a statement and the statements nested in it (ast.stmt, ast.excepthandler, ast.match_case)
+                dom_g = ctx.dom(g, g.entry)
+                vis = [(nn, c) for (nn, c) in calls if c.func.attr == 'visit']
+                need(vis, '%s: the generic_visit override never calls visit' % rule)
+                carriers = {'stmt', 'excepthandler', 'match_case'}
+                bad = None
+                for (nn, c) in vis:
+                    for x in graph.guard_facts(dom_g, nn):
+                        e = x.expr
+                        if isinstance(e, ast.Call) and is_name(e.func, 'isinstance') and len(e.args) == 2:
+                            ts = e.args[1].elts if isinstance(e.args[1], (ast.Tuple, ast.List)) else [e.args[1]]
+                            names = {t.attr if isinstance(t, ast.Attribute) else getattr(t, 'id', None) for t in ts}
+                            if x.polarity is True:
+                                if 'AST' in names or carriers <= names:
+                                    continue
+                                if names & (carriers | {'expr', 'mod'}) or all(nm_ is not None for nm_ in names):
+                                    bad = (c, sorted(carriers - names))
+                                    continue
+                            elif x.polarity is False and not (names & (carriers | {'AST'})):
+                                continue
+                            if x.polarity is False and names & carriers:
+                                bad = (c, sorted(names & carriers))
+                                continue
+                        if x.origin is not None and x.origin.attrs.get('polarity') == 'iter':
+                            continue
+                        if isinstance(e, ast.Compare) and any(isinstance(o, (ast.Is, ast.IsNot)) for o in e.ops) and any(isinstance(cm, ast.Constant) and cm.value is None for cm in e.comparators):
+                            continue
+                        raise AnalysisError('%s: the generic_visit override visits children under a condition that was not recognised: %s' % (rule, ctx.src(e, 80)))
+                rep.ob(rule, ctx.loc(fg, fg.node), 'generic_visit override walks all fields', bad is None,
+                       'iterates the fields of the node generically' if bad is None else
+                       'the overriding generic_visit only descends into children of some node classes and leaves out ast.%s: definitions nested under such a node '
+                       '(e.g. in a `match ... case` arm) exist after import but are invisible to static collection' % ', ast.'.join(bad[1]), anchor=fg.qualname)
             elif consts_ & required:
                 missing = sorted(required - consts_)
                 rep.ob(rule, ctx.loc(fg, fg.node), 'generic_visit override descends into %s' % sorted(consts_ & required), not missing,
@@ -637,6 +669,8 @@ CO = 'xdoctest/core.py'
 VARIANTS = [
     fire('generic-visit-with-fixed-field-list', 'C07.R8', (SA, "    # -- helpers ---\n", "    def generic_visit(self, node):\n        for field in ('body', 'orelse', 'handlers', 'finalbody'):\n            for child in getattr(node, field, None) or []:\n                self.visit(child)\n\n    # -- helpers ---\n")),
     fire('try-handlers-not-visited', 'C07.R8', (SA, "    # -- helpers ---\n", "    def visit_Try(self, node):\n        for child in node.body + node.orelse + node.finalbody:\n            self.visit(child)\n\n    # -- helpers ---\n")),
+    fire('generic-visit-statements-only', 'C07.R8', (SA, "    # -- helpers ---\n", "    def generic_visit(self, node):\n        for child in ast.iter_child_nodes(node):\n            if isinstance(child, (ast.stmt, ast.excepthandler)):\n                self.visit(child)\n\n    # -- helpers ---\n")),
+    silent('generic-visit-statement-carriers', (SA, "    # -- helpers ---\n", "    def generic_visit(self, node):\n        for child in ast.iter_child_nodes(node):\n            if isinstance(child, (ast.stmt, ast.excepthandler, ast.match_case)):\n                self.visit(child)\n\n    # -- helpers ---\n")),
     silent('try-visited-explicitly', (SA, "    # -- helpers ---\n", "    def visit_Try(self, node):\n        self.generic_visit(node)\n\n    # -- helpers ---\n")),
     fire('walk-list-rebound-before-pruning', 'C07.R6', (SA, "            ispkg = exists(join(dpath, '__init__.py'))\n", "            dnames = sorted(dnames)\n            ispkg = exists(join(dpath, '__init__.py'))\n")),
     silent('walk-list-sorted-in-place', (SA, "            ispkg = exists(join(dpath, '__init__.py'))\n", "            dnames.sort()\n            ispkg = exists(join(dpath, '__init__.py'))\n")),
